@@ -40,7 +40,7 @@ func imageToGrayDefault(img image.Image, pixels []float32) {
 	s := b.Max.X - b.Min.X
 	for i := 0; i < s; i++ {
 		for j := 0; j < s; j++ {
-			pixels[(i*s)+j] = float32(pixelToGray(img.At(j, i).RGBA()))
+			pixels[(i*s)+j] = float32(pixelToGray(img.At(b.Min.X+j, b.Min.Y+i).RGBA()))
 		}
 	}
 }
@@ -66,10 +66,11 @@ func pixelToGray(r, g, b, a uint32) float32 {
 // yCbCrToGrayAlt convers an *image.YCbCr to array of pixels.
 func yCbCrToGrayAlt(img *image.YCbCr, pixels []float32) {
 	s := img.Rect.Max.X - img.Rect.Min.X
+	org := img.Rect.Min
 	for y := 0; y < s; y++ {
 		for x := 0; x < s; x++ {
-			yi := img.YOffset(x, y)
-			ci := img.COffset(x, y)
+			yi := img.YOffset(org.X+x, org.Y+y)
+			ci := img.COffset(org.X+x, org.Y+y)
 
 			yy := img.Y[yi]
 			cb := img.Cb[ci]
@@ -108,9 +109,10 @@ func yCbCrToGrayAlt(img *image.YCbCr, pixels []float32) {
 // rgbaToGray uses *image.RGBA which is signifiantly faster than the image.Image interface.
 func rgbaToGray(img *image.RGBA, pixels []float32) {
 	s := img.Rect.Max.X - img.Rect.Min.X
+	org := img.Rect.Min
 	for i := 0; i < s; i++ {
 		for j := 0; j < s; j++ {
-			pixels[(i*s)+j] = float32(pixelToGray(img.At(j, i).RGBA()))
+			pixels[(i*s)+j] = float32(pixelToGray(img.At(org.X+j, org.Y+i).RGBA()))
 		}
 	}
 }
